@@ -212,7 +212,7 @@ def _main(a, prop, seed, env, run_dir, t0):
         for s in res["subs"]:
             m = subs.setdefault(s["sub"], dict(evaluations=0, nt=set(), classes={}, class_sample={}, samples=[],
                                                excluded={}, inconclusive=0, failures={}, wall_s=0.0, distinct=0,
-                                               enumerated=False))
+                                               enumerated=False, inner=0, inner_nt=0))
             m["evaluations"] += s["evaluations"]
             m["distinct"] += s["distinct"]
             m["nt"].update(s["nt"])
@@ -225,6 +225,8 @@ def _main(a, prop, seed, env, run_dir, t0):
             for k, v in s["excluded"].items():
                 m["excluded"][k] = m["excluded"].get(k, 0) + v
             m["inconclusive"] += s["inconclusive"]
+            m["inner"] += s.get("inner_evaluations", 0)
+            m["inner_nt"] += s.get("inner_nontrivial", 0)
             m["wall_s"] = max(m["wall_s"], s["wall_s"])
             for b, f in s["failures"].items():
                 g = m["failures"].get(b)
@@ -266,7 +268,7 @@ def _main(a, prop, seed, env, run_dir, t0):
                 missing.append(f"{sm['name']}:{c}")
 
     # ---- evidence ------------------------------------------------------------------------------
-    evaluations = sum(m["evaluations"] for m in subs.values()) + len(replays)
+    evaluations = sum(m["evaluations"] + m["inner"] for m in subs.values()) + len(replays)
     nt_total = sum(len(m["nt"]) for m in subs.values())
     samples = []
     for name, m in subs.items():
@@ -287,6 +289,7 @@ def _main(a, prop, seed, env, run_dir, t0):
                                   distinct_nontrivial=len(m["nt"]),
                                   classes=dict(sorted(m["classes"].items())), excluded_known=m["excluded"],
                                   inconclusive=m["inconclusive"], enumerated=m["enumerated"],
+                                  inner_evaluations=m["inner"], inner_nontrivial=m["inner_nt"],
                                   exhaustive=(m["enumerated"] and a.tier in next(
                                       (s["exh"] for s in meta["subs"] if s["name"] == n), [])),
                                   failure_buckets={b: dict(count=f["count"], known=f.get("known"),
@@ -309,7 +312,7 @@ def _main(a, prop, seed, env, run_dir, t0):
 
     for n, m in subs.items():
         cls = ", ".join(f"{k}={v}" for k, v in sorted(m["classes"].items()))
-        print(f"[{prop}/{n}] cases={m['evaluations']} distinct_nontrivial={len(m['nt'])} "
+        print(f"[{prop}/{n}] cases={m['evaluations']} inner={m['inner']} distinct_nontrivial={len(m['nt'])} "
               f"excluded={m['excluded']} inconclusive={m['inconclusive']} shard_wall={m['wall_s']}s")
         if os.environ.get("VERIF_VERBOSE"):
             print(f"    classes: {cls}")
